@@ -284,6 +284,12 @@ func (sv *negServer) serve(conn net.Conn) {
 			}
 			w(negHeader)
 			w(featuresXML(feat))
+			if m["mute"] == "true" && !secure && !tlsDone && len(feat) > 0 && feat[0] == '0' {
+				// a peer that offers no STARTTLS and goes on talking: a request and a message right behind the features.
+				// Whatever the client makes of them, no answer may travel over the connection it has to refuse.
+				w("<iq type='get' id='probe' from='localhost' to='test@localhost/res'><ping xmlns='urn:xmpp:ping'/></iq>" +
+					"<message from='a@localhost/x' to='test@localhost/res' id='probe-m' type='chat'><body>probe</body></message>")
+			}
 		case "starttls":
 			dec.Skip()
 			sv.rec("starttls", secure)
@@ -1008,12 +1014,20 @@ func (np negProp) oneConn(client *xmpp.Client, cfg *xmpp.Config, xt *xmpp.XMPPTr
 	sv.mu.Lock()
 	seen := append([]string(nil), sv.seen...)
 	sv.mu.Unlock()
+	if os.Getenv("NEGDEBUG") != "" {
+		fmt.Fprintln(os.Stderr, "NEGDEBUG", out, seen)
+	}
 	// the first "open" of a connection whose stream header failed is still a client write
 	hasBind := false
 	var ws []string
 	for _, s := range seen {
 		if strings.HasPrefix(s, "other-message#after-fail") {
 			ws = append(ws, "afterfail"+s[strings.LastIndex(s, ":"):])
+			continue
+		}
+		if m["mute"] == "true" && out != "established" && (strings.HasPrefix(s, "iq-other") || strings.HasPrefix(s, "other-iq#") || strings.HasPrefix(s, "other-message#probe")) {
+			// an answer to what the peer sent behind its features
+			ws = append(ws, "afterfail-reply"+s[strings.LastIndex(s, ":"):])
 			continue
 		}
 		if strings.HasPrefix(s, "other-") || strings.HasPrefix(s, "iq-other") {
